@@ -483,6 +483,91 @@ func TestVerifC07Child(t *testing.T) {
 			vC07WhileHandlerRuns(r.Fork(), role)
 		}
 	}
+	if svc == 0 && focus == "" {
+		vC07RegisterLater(r.Fork(), role)
+	}
+}
+
+// C05: requests which arrive once the service is registered are served, whatever arrived before
+func TestVerifC05RegisterLater(t *testing.T) {
+	r := vNewRand(vSeed() + 57)
+	for i := 0; i < 3; i++ {
+		vC07RegisterLater(r.Fork(), "Srv")
+		vC07RegisterLater(r.Fork(), "Cli")
+	}
+}
+
+// vC07RegisterLater: requests arrive before the service is registered (they are not served), then the service is
+// registered: from then on every valid request - for the methods asked for earlier and for the others - runs its handler
+// once and is answered once. What the endpoint learnt about a method name while it had no service must not stick.
+func vC07RegisterLater(r *vRand, role string) {
+	var srv *vSrvEnd
+	var cli *vCliEnd
+	var tr *vFakeTr
+	var impl *vImpl
+	if role == "Srv" {
+		srv = vNewSrvEnd(false)
+		tr, impl = srv.tr, srv.impl
+	} else {
+		cli = vNewCliEnd(false)
+		tr, impl = cli.tr, cli.impl
+	}
+	time.Sleep(2 * time.Millisecond)
+	base := runtime.NumGoroutine()
+	c := vCase{Class: "register-later", Sig: "register-later/" + role, Info: map[string]interface{}{"role": role}}
+	req := func(method string) []byte {
+		pl, _ := proto.Marshal(vAppMsg("early-or-late", []byte("p"), ""))
+		return vFrame(&message.Message{Exchange: &message.Message_Request{Request: &message.Request{Method: method, CallId: uuid.NewString(), Payload: pl}}})
+	}
+	early := []string{"Echo", "Nope", "Echo"}
+	for _, m := range early {
+		if vFeed(tr, req(m)) != nil || vFeed(tr, vC07Sentinel) != nil {
+			c.Fail = "wedged"
+		}
+	}
+	vSettle(base)
+	if h := impl.take(); len(h) != 0 && c.Fail == "" {
+		c.Fail = "handler-ran-without-a-registered-service"
+	}
+	tr.takeWrites()
+	if srv != nil {
+		srv.s.RegisterService(vDesc(), impl)
+	} else {
+		cli.cc.RegisterService(vDesc(), impl)
+	}
+	served := 0
+	for _, m := range []string{"Echo", "Other", "Echo", "snake_case"} {
+		if c.Fail != "" {
+			break
+		}
+		impl.take()
+		tr.takeWrites()
+		if vFeed(tr, req(m)) != nil || vFeed(tr, vC07Sentinel) != nil {
+			c.Fail = "wedged"
+			break
+		}
+		vSettle(base)
+		if h, w := impl.take(), tr.takeWrites(); len(h) != 1 || len(w) != 1 {
+			c.Fail = "request-not-served-after-the-service-was-registered"
+			c.Info.(map[string]interface{})["method"] = m
+			c.Info.(map[string]interface{})["handlers_run"] = len(h)
+			c.Info.(map[string]interface{})["frames_written"] = len(w)
+			break
+		}
+		served++
+	}
+	c.Info.(map[string]interface{})["outcome"] = fmt.Sprintf("served %d of 4 after the registration", served)
+	closed := false
+	if cli != nil {
+		closed = vGaWithin(4*time.Second, func() { cli.cc.Close() })
+	} else {
+		closed = vGaWithin(4*time.Second, func() { srv.s.Stop() })
+		close(srv.done)
+	}
+	if !closed && c.Fail == "" {
+		c.Fail = "close-hangs-after-frames"
+	}
+	vEmit(c)
 }
 
 func vC07Wait(d time.Duration, f func() bool) bool {
